@@ -43,9 +43,9 @@ import (
 
 func init() {
 	sk.Register("C34.live", sk.Scenario{Run: func(rc *sk.RunCtx) { runLive(rc, "race") }, PostRun: raceOracle,
-		Isolated: true, HangTimeout: 150 * time.Second, IgnoreLeak: true})
+		Isolated: true, HangTimeout: 75 * time.Second, IgnoreLeak: true})
 	sk.Register("C49.stop", sk.Scenario{Run: func(rc *sk.RunCtx) { runLive(rc, "stop") }, PostRun: raceSkip,
-		HangTimeout: 150 * time.Second, LeakIsViolation: true})
+		HangTimeout: 75 * time.Second, LeakIsViolation: true})
 }
 
 type liveNode struct {
